@@ -71,13 +71,13 @@ Qed.
 (** ** add_padding *)
 
 Lemma pad1_none {A} (fill : A) n l : pad1 fill n l = None <-> (n < length l)%nat.
-Proof. unfold pad1. destruct (Nat.ltb_spec n (length l)); split; intros; try discriminate; auto; lia. Qed.
+Proof. unfold pad1. destruct (Nat.ltb_spec n (length l)); split; intros H0; try discriminate; auto; lia. Qed.
 
 Lemma pad1_some {A} (fill : A) n l r :
   pad1 fill n l = Some r ->
   r = l ++ repeat fill (n - length l) /\ length r = n /\ (length l <= n)%nat.
 Proof.
-  unfold pad1. destruct (Nat.ltb_spec n (length l)); [discriminate|]. intros H. inversion H; subst.
+  unfold pad1. destruct (Nat.ltb_spec n (length l)) as [Hlt|Hge]; [discriminate|]. intros Hs. inversion Hs; subst.
   split; [reflexivity|]. rewrite app_length, repeat_length. lia.
 Qed.
 
@@ -86,7 +86,7 @@ Definition rect {A} (m : list (list A)) : Prop := Forall (fun row => length row 
 Lemma pad2_none {A} (fill : A) r c m :
   pad2 fill r c m = None <-> (r < length m \/ c < width m)%nat.
 Proof.
-  unfold pad2. destruct (Nat.ltb_spec r (length m)); destruct (Nat.ltb_spec c (width m)); simpl;
+  unfold pad2. destruct (Nat.ltb_spec r (length m)) as [Ha|Ha]; destruct (Nat.ltb_spec c (width m)) as [Hb|Hb]; simpl;
     split; intros H'; try discriminate; auto; lia.
 Qed.
 
@@ -96,7 +96,7 @@ Definition pad2_result {A} (fill : A) (r c : nat) (m : list (list A)) : list (li
 Lemma pad2_some {A} (fill : A) r c m x :
   pad2 fill r c m = Some x -> x = pad2_result fill r c m /\ (length m <= r)%nat /\ (width m <= c)%nat.
 Proof.
-  unfold pad2. destruct (Nat.ltb_spec r (length m)); destruct (Nat.ltb_spec c (width m)); simpl;
+  unfold pad2. destruct (Nat.ltb_spec r (length m)) as [Ha|Ha]; destruct (Nat.ltb_spec c (width m)) as [Hb|Hb]; simpl;
     try discriminate. intros H'. inversion H'. auto.
 Qed.
 
@@ -122,11 +122,10 @@ Proof.
   intros Hr Hi Hj Hl Hw. unfold pad2_result.
   destruct (Nat.ltb_spec i (length m)) as [Him|Him]; simpl.
   - rewrite app_nth1 by (rewrite map_length; exact Him).
-    assert (Hrow : nth i (map (fun row => row ++ repeat fill (c - length row)) m) [] =
-                   nth i m [] ++ repeat fill (c - length (nth i m []))).
-    { rewrite (nth_indep _ [] ((fun row => row ++ repeat fill (c - length row)) [])) by (rewrite map_length; exact Him).
-      apply map_nth. }
-    rewrite Hrow.
+    set (f := fun row : list A => row ++ repeat fill (c - length row)).
+    assert (Hrow : nth i (map f m) [] = f (nth i m [])).
+    { rewrite (nth_indep _ [] (f [])) by (rewrite map_length; exact Him). apply map_nth. }
+    rewrite Hrow. unfold f.
     assert (Hlen : length (nth i m []) = width m).
     { unfold rect in Hr. rewrite Forall_forall in Hr. apply Hr. apply nth_In. exact Him. }
     destruct (Nat.ltb_spec j (width m)) as [Hjm|Hjm].
@@ -147,7 +146,8 @@ Lemma box_rect {A} r c (x : list (list A)) : box_contains r c x = true -> rect x
 Proof.
   intros H. apply box_contains_spec in H. destruct H as [Hl Hf]. split; [|split; [exact Hl|]].
   - unfold rect. destruct x as [|row t]; [constructor|]. simpl.
-    inversion Hf as [|? ? Hrow Ht]; subst. apply Forall_forall. intros y Hy.
+    assert (Hrow : length row = c) by (inversion Hf; assumption).
+    apply Forall_forall. intros y Hy.
     rewrite Forall_forall in Hf. rewrite (Hf y Hy). symmetry. exact Hrow.
   - intros Hne. destruct x as [|row t]; [congruence|]. simpl. inversion Hf; auto.
 Qed.
@@ -259,7 +259,7 @@ Proof.
     unfold add_source_sink_edges in H.
     destruct (type_row (add_source_sink_nodes g2) NSource) as [|[s ?] ?]; [discriminate|].
     destruct (type_row (add_source_sink_nodes g2) NSink) as [|[t ?] ?]; [discriminate|].
-    destruct (source_sink_edge_list s t (g_by_job (add_source_sink_nodes g2))) as [l|]; [|discriminate].
+    destruct (source_sink_edge_list s t (g_by_job (add_source_sink_nodes g2))) as [lss|]; [|discriminate].
     destruct (graph_ok_add_edges _ _ _ H3 H) as [H4 I4]. split; [exact H4|].
     rewrite I4. unfold add_source_sink_nodes. rewrite !add_node_inst. congruence.
   - (* agent task *)
@@ -302,3 +302,248 @@ Proof.
     destruct (global_edge_list g3 NJob) as [l2|]; [|discriminate].
     destruct (graph_ok_add_edges _ _ _ H3 H) as [H4 I4]. split; [exact H4|congruence].
 Qed.
+
+(** ** remove_node only removes *)
+
+Lemma filter_length_le' {A} (f : A -> bool) l : (length (filter f l) <= length l)%nat.
+Proof. induction l as [|x t IH]; simpl; [lia|]. destruct (f x); simpl; lia. Qed.
+
+Lemma fold_upd_length (iso : list nat) : forall r : list bool,
+  length (fold_left (fun r n => upd r n true) iso r) = length r.
+Proof. induction iso as [|n t IH]; intros r; simpl; [reflexivity|]. rewrite IH. apply length_upd. Qed.
+
+Lemma remove_node_facts g u g' :
+  graph_ok g -> remove_node g u = Some g' ->
+  graph_ok g' /\ g_next g' = g_next g /\ g_nodes g' = g_nodes g /\ g_inst g' = g_inst g /\
+  (length (g_edges g') <= length (g_edges g))%nat /\
+  (forall e, In e (g_edges g') -> In e (g_edges g)).
+Proof.
+  intros [H1 H2 H3]. unfold remove_node. destruct (has_node g u); [|discriminate].
+  intros H. inversion H; subst; clear H. simpl.
+  split; [|split; [reflexivity|split; [reflexivity|split; [reflexivity|split]]]].
+  - constructor; simpl; auto.
+    + rewrite fold_upd_length, length_upd. exact H1.
+    + unfold edges_in in *. rewrite Forall_forall in *. intros e He. apply filter_In in He. apply H3. tauto.
+  - apply filter_length_le'.
+  - intros e He. apply filter_In in He. tauto.
+Qed.
+
+Lemma try_remove_facts g u :
+  graph_ok g ->
+  graph_ok (try_remove g u) /\ g_next (try_remove g u) = g_next g /\ g_nodes (try_remove g u) = g_nodes g /\
+  g_inst (try_remove g u) = g_inst g /\
+  (length (g_edges (try_remove g u)) <= length (g_edges g))%nat.
+Proof.
+  intros Hg. unfold try_remove. destruct (remove_node g u) as [g'|] eqn:E.
+  - destruct (remove_node_facts _ _ _ Hg E) as (A & B & C & D & F & _). auto.
+  - split; [exact Hg|]. split; [reflexivity|]. split; [reflexivity|]. split; [reflexivity|lia].
+Qed.
+
+Theorem run_removes_facts l : forall g,
+  graph_ok g ->
+  graph_ok (run_removes g l) /\ g_next (run_removes g l) = g_next g /\
+  g_nodes (run_removes g l) = g_nodes g /\ g_inst (run_removes g l) = g_inst g /\
+  (length (g_edges (run_removes g l)) <= length (g_edges g))%nat.
+Proof.
+  unfold run_removes. induction l as [|u t IH]; intros g Hg; simpl.
+  - split; [exact Hg|]. split; [reflexivity|]. split; [reflexivity|]. split; [reflexivity|lia].
+  - destruct (try_remove_facts g u Hg) as (A & B & C & D & F).
+    destruct (IH _ A) as (A' & B' & C' & D' & F').
+    split; [exact A'|]. split; [congruence|]. split; [congruence|]. split; [congruence|lia].
+Qed.
+
+(** ** The networkx edge order is a permutation of the edge map *)
+
+Lemma filter_split_perm {A} (p q r : A -> bool) l :
+  (forall x, r x = p x || q x) -> (forall x, p x && q x = false) ->
+  Permutation (filter r l) (filter p l ++ filter q l).
+Proof.
+  intros Hr Hd. induction l as [|x t IH]; simpl; [constructor|].
+  rewrite Hr. specialize (Hd x). destruct (p x) eqn:Ep; destruct (q x) eqn:Eq; simpl in *; try discriminate.
+  - apply perm_skip. exact IH.
+  - apply Permutation_cons_app. exact IH.
+  - exact IH.
+Qed.
+
+Lemma filter_none {A} (f : A -> bool) l : (forall x, f x = false) -> filter f l = [].
+Proof. intros H. induction l as [|x t IH]; simpl; [reflexivity|]. rewrite H. exact IH. Qed.
+
+Lemma filter_all_true {A} (f : A -> bool) l : Forall (fun x => f x = true) l -> filter f l = l.
+Proof. induction 1 as [|x t Hx Ht IH]; simpl; [reflexivity|]. rewrite Hx, IH. reflexivity. Qed.
+
+Lemma bucket_perm {A} (f : A -> nat) l n :
+  Permutation (flat_map (fun u => filter (fun e => (f e =? u)%nat) l) (seq 0 n))
+              (filter (fun e => (f e <? n)%nat) l).
+Proof.
+  induction n as [|n IH].
+  - simpl. rewrite filter_none; [constructor|]. intros x. apply Nat.ltb_ge. lia.
+  - rewrite seq_S, flat_map_app. simpl. rewrite app_nil_r.
+    eapply Permutation_trans; [apply Permutation_app_tail; exact IH|].
+    apply Permutation_sym. apply filter_split_perm.
+    + intros x. destruct (Nat.ltb_spec (f x) (S n)); destruct (Nat.ltb_spec (f x) n);
+        destruct (Nat.eqb_spec (f x) n); simpl; try reflexivity; lia.
+    + intros x. destruct (Nat.ltb_spec (f x) n); destruct (Nat.eqb_spec (f x) n); simpl; try reflexivity; lia.
+Qed.
+
+Theorem edge_view_perm g : graph_ok g -> Permutation (edge_view g) (g_edges g).
+Proof.
+  intros [_ _ H]. unfold edge_view.
+  eapply Permutation_trans; [apply (bucket_perm e_src)|].
+  rewrite filter_all_true; [apply Permutation_refl|].
+  unfold edges_in in H. eapply Forall_impl; [|exact H]. simpl. intros e [A _]. apply Nat.ltb_lt. exact A.
+Qed.
+
+Lemma edge_view_length g : graph_ok g -> length (edge_view g) = length (g_edges g).
+Proof. intros H. apply Permutation_length. apply edge_view_perm. exact H. Qed.
+
+Lemma edge_view_in g : graph_ok g -> edges_in (g_next g) (edge_view g).
+Proof.
+  intros H. unfold edges_in. apply Forall_forall. intros e He.
+  apply (Permutation_in _ (edge_view_perm g H)) in He.
+  destruct H as [_ _ H]. unfold edges_in in H. rewrite Forall_forall in H. apply H. exact He.
+Qed.
+
+Definition edge0 : edge := (0%nat, 0%nat, ENone).
+
+(** sources never decrease along the view: it is sorted by source node *)
+Lemma edge_view_sorted g :
+  forall i j, (i <= j)%nat -> (j < length (edge_view g))%nat ->
+    (e_src (nth i (edge_view g) edge0) <= e_src (nth j (edge_view g) edge0))%nat.
+Proof.
+  unfold edge_view. generalize (g_edges g) as es. intros es.
+  assert (Hgen : forall n s i j, (i <= j)%nat ->
+            (j < length (flat_map (fun u => filter (fun e => (e_src e =? u)%nat) es) (seq s n)))%nat ->
+            (s <= e_src (nth i (flat_map (fun u => filter (fun e => (e_src e =? u)%nat) es) (seq s n)) edge0) /\
+             e_src (nth i (flat_map (fun u => filter (fun e => (e_src e =? u)%nat) es) (seq s n)) edge0) <=
+             e_src (nth j (flat_map (fun u => filter (fun e => (e_src e =? u)%nat) es) (seq s n)) edge0))%nat).
+  { induction n as [|n IH]; intros s i j Hij Hj; simpl in *; [lia|].
+    set (b := filter (fun e => (e_src e =? s)%nat) es) in *.
+    assert (Hb : forall k, (k < length b)%nat -> e_src (nth k b edge0) = s).
+    { intros k Hk. assert (Hin : In (nth k b edge0) b) by (apply nth_In; exact Hk).
+      unfold b in Hin. apply filter_In in Hin. apply Nat.eqb_eq. tauto. }
+    rewrite app_length in Hj.
+    destruct (Nat.lt_ge_cases j (length b)) as [Hjb|Hjb].
+    - rewrite !app_nth1 by lia. rewrite !Hb by lia. lia.
+    - destruct (Nat.lt_ge_cases i (length b)) as [Hib|Hib].
+      + rewrite (app_nth1 _ _ _ Hib), Hb by exact Hib. rewrite app_nth2 by exact Hjb.
+        destruct (IH (S s) (j - length b)%nat (j - length b)%nat) as [A _]; [lia|lia|]. lia.
+      + rewrite !app_nth2 by lia.
+        destruct (IH (S s) (i - length b)%nat (j - length b)%nat) as [A B]; [lia|lia|]. lia. }
+  intros i j Hij Hj. apply (Hgen (g_next g) 0%nat i j Hij Hj).
+Qed.
+
+(** ** The observation of the single environment *)
+
+Definition edge_rows (g : graph) (k : nat) : list (list Z) :=
+  [map (fun e => Z.of_nat (e_src e)) (edge_view g) ++ repeat (-1) k;
+   map (fun e => Z.of_nat (e_dst e)) (edge_view g) ++ repeat (-1) k].
+
+Lemma pad2_two_rows (a b : list Z) E :
+  (length a <= E)%nat ->
+  pad2 (-1) 2 E [a; b] = Some [a ++ repeat (-1) (E - length a); b ++ repeat (-1) (E - length b)].
+Proof.
+  intros Hle. unfold pad2. cbn [length width]. 
+  replace (2 <? 2)%nat with false by reflexivity.
+  destruct (Nat.ltb_spec E (length a)) as [Hlt|Hge]; [lia|]. reflexivity.
+Qed.
+
+Lemma get_edge_index_padded sp g :
+  (length (edge_view g) <= sp_edges sp)%nat ->
+  get_edge_index true sp g = Some (edge_rows g (sp_edges sp - length (edge_view g))).
+Proof.
+  intros Hle. unfold get_edge_index, edge_index_raw, edge_rows.
+  destruct (edge_view g) as [|e t] eqn:E.
+  - unfold pad2. simpl. rewrite Nat.sub_0_r. reflexivity.
+  - remember (e :: t) as es eqn:Ees. rewrite pad2_two_rows by (rewrite map_length; exact Hle).
+    rewrite !map_length. reflexivity.
+Qed.
+
+Lemma get_edge_index_raises sp g :
+  (sp_edges sp < length (edge_view g))%nat -> get_edge_index true sp g = None.
+Proof.
+  intros Hlt. unfold get_edge_index, edge_index_raw.
+  destruct (edge_view g) as [|e t] eqn:E; [simpl in Hlt; lia|].
+  apply pad2_none. right. cbn [width]. rewrite map_length. exact Hlt.
+Qed.
+
+Lemma edge_entry_ok_nat N x : (x < N)%nat -> edge_entry_ok N (Z.of_nat x) = true.
+Proof. intros H. unfold edge_entry_ok, in_range. rewrite andb_true_iff, Z.leb_le, Z.ltb_lt. lia. Qed.
+Lemma edge_entry_ok_pad N : edge_entry_ok N (-1) = true.
+Proof. unfold edge_entry_ok, in_range. rewrite andb_true_iff, Z.leb_le, Z.ltb_lt. lia. Qed.
+
+Lemma edge_rows_contained g N E k :
+  graph_ok g -> (g_next g <= N)%nat -> (length (edge_view g) + k = E)%nat ->
+  edge_space_contains N E (edge_rows g k) = true.
+Proof.
+  intros Hg HN HE. pose proof (edge_view_in g Hg) as Hin. unfold edges_in in Hin. rewrite Forall_forall in Hin.
+  unfold edge_space_contains, edge_rows. cbn [length forallb]. rewrite Nat.eqb_refl. simpl andb.
+  rewrite !app_length, !map_length, !repeat_length, !HE, !Nat.eqb_refl. simpl andb.
+  rewrite !forallb_app. rewrite !andb_true_iff. repeat split.
+  - apply forallb_forall. intros x Hx. apply in_map_iff in Hx. destruct Hx as (e & <- & He).
+    apply edge_entry_ok_nat. destruct (Hin e He). lia.
+  - apply forallb_forall. intros x Hx. apply repeat_spec in Hx. subst. apply edge_entry_ok_pad.
+  - apply forallb_forall. intros x Hx. apply in_map_iff in Hx. destruct Hx as (e & <- & He).
+    apply edge_entry_ok_nat. destruct (Hin e He). lia.
+  - apply forallb_forall. intros x Hx. apply repeat_spec in Hx. subst. apply edge_entry_ok_pad.
+Qed.
+
+Theorem single_obs_in_space {A : Type} (g0 : graph) (shapes : list (ftype * (nat * nat)))
+        (l : list nat) (feats : list (ftype * list (list A))) :
+  graph_ok g0 -> feats_contains shapes feats = true ->
+  let sp := observation_space g0 shapes in
+  let g := run_removes g0 l in
+  (length (edge_view g) <= sp_edges sp)%nat /\
+  length (g_removed g) = sp_nodes sp /\ g_nodes g = g_nodes g0 /\
+  get_observation true sp g feats =
+    Some (mkobs (g_removed g) (edge_rows g (sp_edges sp - length (edge_view g))) feats) /\
+  obs_contains sp (mkobs (g_removed g) (edge_rows g (sp_edges sp - length (edge_view g))) feats) = true.
+Proof.
+  intros Hg Hf sp g. destruct (run_removes_facts l g0 Hg) as (Hg' & Hn & Hnodes & _ & Hle).
+  fold g in Hg', Hn, Hnodes, Hle.
+  assert (Hlen : (length (edge_view g) <= sp_edges sp)%nat).
+  { rewrite (edge_view_length g Hg'). exact Hle. }
+  assert (Hmask : length (g_removed g) = sp_nodes sp).
+  { simpl. rewrite (ok_removed _ Hg'), Hn. symmetry. apply (ok_nodes _ Hg). }
+  split; [exact Hlen|]. split; [exact Hmask|]. split; [exact Hnodes|]. split.
+  - unfold get_observation. rewrite (get_edge_index_padded sp g Hlen). reflexivity.
+  - unfold obs_contains. cbn [ob_removed ob_edge ob_feats]. rewrite !andb_true_iff. repeat split.
+    + unfold mask_contains. apply Nat.eqb_eq. exact Hmask.
+    + apply edge_rows_contained; [exact Hg'| |lia].
+      rewrite Hn. simpl. rewrite (ok_nodes _ Hg). lia.
+    + exact Hf.
+Qed.
+
+(** without padding the edge index is the bare edge list: in the space exactly
+    while no edge has been removed *)
+Lemma get_observation_unpadded {A : Type} sp g (feats : list (ftype * list (list A))) :
+  get_observation false sp g feats = Some (mkobs (g_removed g) (edge_index_raw g) feats).
+Proof. reflexivity. Qed.
+
+(** ** done <-> complete *)
+Section Done.
+  Variable O : Type.
+  Variable o_update : instance -> list fname -> dstate -> sop -> O -> O.
+
+  Lemma step_a_Inv I w a : valid I -> Inv I (core w) -> Inv I (core (step_a O o_update I w a)).
+  Proof.
+    intros Hv Hi. unfold step_a. destruct a as [r|j m]; simpl.
+    - apply (step_req_Inv O o_update I w r Hv Hi).
+    - destruct (env_step_cases O o_update I j m w) as [[e He]|[m' He]]; rewrite He.
+      + exact Hi.
+      + apply (step_req_Inv O o_update I w _ Hv Hi).
+  Qed.
+
+  Lemma run_a_Inv I l : forall w, valid I -> Inv I (core w) -> Inv I (core (run_a O o_update I w l)).
+  Proof.
+    unfold run_a. induction l as [|a t IH]; intros w Hv Hi; simpl; [exact Hi|].
+    apply IH; [exact Hv|]. apply step_a_Inv; assumption.
+  Qed.
+
+  Theorem done_iff_complete I fs l :
+    valid I ->
+    let w := run_a O o_update I (init_w O I fs) l in
+    step_done I (core w) = true <-> complete I (sched (core w)).
+  Proof.
+    intros Hv w. unfold step_done. apply is_complete_spec. apply run_a_Inv; [exact Hv|]. simpl. apply Inv_init.
+  Qed.
+End Done.
